@@ -155,8 +155,8 @@ def run_family_check(ctx, prop, families, instances):
   if ctx.only_sid:
     jobs = [j for j in jobs if ctx.only_sid.startswith('%s-%s-%s-i%d' % (prop, j[0]['family'], cell_id(j[0]), j[1]))]
   mpctx = mp.get_context('fork')
-  with mpctx.Pool(processes=15) as pool:
-    results = list(pool.imap_unordered(run_cell, jobs, chunksize=1))
+  from pv import proc
+  results = list(proc.imap_unordered(run_cell, jobs, procs=15, chunk=2))
   recs, empty = [], 0
   for sid, rec, err in results:
     if err == 'empty':
